@@ -146,12 +146,17 @@ impl Env {
             let mut dirs: Vec<PathBuf> = Vec::with_capacity(targets.len());
             for t in targets.iter() {
                 match t.as_path().parent() {
-                    // Cleaned, as Python's os.path.abspath does: the directory of
-                    // `other/../sub/x` is `sub`, or the spelling of a target would decide
-                    // where the project database is looked for (and created).
-                    Some(par) => dirs.push(
-                        helpers::normpath(&helpers::abs_path(&cwd, &par)).into_owned(),
-                    ),
+                    // Resolved the way the target's record key is (symbolic links in the
+                    // directory followed, then cleaned): the directory of `other/../sub/x`
+                    // and of `link-to-sub/x` is `sub`, or the spelling of a target would
+                    // decide where the project database is looked for (and created).
+                    Some(par) => {
+                        let abs = helpers::abs_path(&cwd, &par);
+                        dirs.push(
+                            super::state::real_dir(&abs)
+                                .unwrap_or_else(|_| helpers::normpath(&abs).into_owned()),
+                        )
+                    }
                     None => {
                         return Err(
                             RedoErrorKind::InvalidTarget(t.as_os_str().to_os_string()).into()
